@@ -478,3 +478,35 @@ Theorem tables_independent (matches2 : bool -> N -> N -> bool) ord tabs steps i 
 Proof.
   intros Hs Ht. unfold mrun. rewrite (map_nth_error _ _ _ Hs). unfold mstep. cbn [fst snd]. now rewrite Ht.
 Qed.
+
+(* ---- value ranges over an abstract value type and comparison ---------------------------------------- *)
+
+Lemma np_where_filter_opt {A} (p : A -> bool) (l : list A) :
+  np_where p l = zpos_filter (length l) (fun k => match nth_error l k with Some v => p v | None => false end).
+Proof.
+  destruct l as [|x t]; [reflexivity|].
+  rewrite (np_where_filter p x). apply zpos_filter_ext. intros i Hi.
+  now rewrite (nth_error_nth' _ x Hi).
+Qed.
+
+Theorem range_refines_abstract (V : Type) (le : V -> V -> bool) lo hi col :
+  range_view V le lo hi col = range_spec V le lo hi col.
+Proof.
+  unfold range_view, range_spec, range_indices, in_range.
+  destruct lo as [a|], hi as [b|].
+  - apply np_where_filter_opt.
+  - rewrite np_where_filter_opt. apply zpos_filter_ext. intros i _.
+    destruct (nth_error col i); auto. now rewrite andb_true_r.
+  - apply np_where_filter_opt.
+  - rewrite slice_all. apply zpos_filter_ext. intros i Hi.
+    destruct (nth_error col i) eqn:E; auto. apply nth_error_None in E. lia.
+Qed.
+
+(* the integer-column selector SRange is the instance V = Z, le = Z.leb *)
+Lemma srange_is_instance matches ord t lo hi cn vals :
+  aget N.eqb cn (s_cols t) = Some vals -> length vals = slen t ->
+  indices matches ord t (QOne (SRange lo hi cn)) = Ok (range_view Z Z.leb lo hi vals).
+Proof.
+  intros Hc Hl. unfold indices. cbn [row_indices]. rewrite Hc. unfold range_view, range_indices.
+  destruct lo, hi; cbn [sbind]; try reflexivity. now rewrite Hl.
+Qed.
